@@ -2,7 +2,7 @@
    Directives: ExtrOcamlBasic only (bool, option, list, prod, unit, sumbool -> OCaml natives). No Extract Constant. *)
 From Coq Require Extraction.
 From Coq Require Import ExtrOcamlBasic.
-From ASV Require Import Base.Util Base.Msg Model.Store Spec.StoreSpec.
+From ASV Require Import Base.Util Base.Msg Base.Log Model.Store Spec.StoreSpec Model.McSys Model.Search Model.McRun Model.Script Model.DebugFmt Model.McInst.
 Extraction Language OCaml.
 Separate Extraction
   Util.nins Util.nsort
@@ -10,4 +10,7 @@ Separate Extraction
   Store.empty Store.step Store.observe Store.offered Store.is_empty Store.run Store.cancel_proc Store.push Store.pop
   Store.push_fixed Store.cancel_timer
   StoreSpec.aempty StoreSpec.legal StoreSpec.astep StoreSpec.aobserve StoreSpec.arun
+  McInst.i_cb_run McInst.i_run McInst.i_run_from_states McInst.i_state_eqb McInst.i_take_choice McInst.i_all_choices
+  McInst.i_get_state McInst.i_set_state McInst.clock_of Script.pstate0 McSys.net_send McSys.net_apply McSys.alternatives
+  DebugFmt.debug_trace
   BinNat.N.leb BinNat.N.add BinNat.N.mul BinNat.N.eqb BinNat.N.compare.
